@@ -80,8 +80,12 @@ verus! {
 pub assume_specification[ u64::div_ceil ](a: u64, b: u64) -> (r: u64)
     requires b != 0,
     ensures r as int == ceil_div(a as int, b as int);
+// Option::map_or(default, f): default for None, f(x) for Some(x)
+pub assume_specification<T, U, F: FnOnce(T) -> U>[ Option::<T>::map_or ](o: Option<T>, default: U, f: F) -> (r: U)
+    requires o.is_some() ==> f.requires((o.unwrap(),)),
+    ensures o.is_none() ==> r == default, o.is_some() ==> f.ensures((o.unwrap(),), r);
 // core's blanket `impl<T> From<T> for T` is the identity
 pub assume_specification<T>[ <T as core::convert::From<T>>::from ](a: T) -> (r: T) ensures r == a;
 } // verus!
 '''
-STD_TRUST = ['assume_specification <T as From<T>>::from: identity (core blanket impl)', 'assume_specification u64::div_ceil: result == ceil(a/b), panics iff b == 0 (std documented behaviour)', 'vstd std_specs (u64::is_multiple_of etc.): part of the Verus standard library specifications']
+STD_TRUST = ['assume_specification Option::map_or: default for None, f(x) for Some(x) (std documented behaviour)', 'assume_specification <T as From<T>>::from: identity (core blanket impl)', 'assume_specification u64::div_ceil: result == ceil(a/b), panics iff b == 0 (std documented behaviour)', 'vstd std_specs (u64::is_multiple_of etc.): part of the Verus standard library specifications']
